@@ -1,10 +1,11 @@
 (* C03 -- at most one own CALL outstanding per connection; the gate is released on every path.
-   PARTIAL: that every waiting caller *eventually* gets its turn is shown for the model only up to
-   the invariants below (the gate is free whenever nobody waits for a reply; it is handed over FIFO
-   inside [settle]); eventual progress of the real asyncio scheduler is observed by the harness
-   (epilogue of every history), not proved. *)
+   Safety (C03_mutex etc.) and liveness (C03_gate_released, C03_next_call_written) are theorems about
+   the model for every finite history.  PARTIAL only in this: that CPython's asyncio.Lock / Queue /
+   wait_for and its scheduler are the FIFO gate, FIFO queue and exact timers of the model is observed
+   by the harness (every history ends with an epilogue request that must be written and answered),
+   not proved. *)
 From Coq Require Import List String Bool ZArith Lia.
-From OV.Model Require Import Json Schema Validate Frame Classes Dispatch Endpoint EndpointProofs Shipped.
+From OV.Model Require Import Json Names Schema Validate Frame Classes Dispatch Endpoint EndpointProofs EndpointProgress Shipped.
 From OV.Gen Require Import Errors.
 Import ListNotations.
 Local Open Scope string_scope.
@@ -91,7 +92,32 @@ Section C03.
     replace (List.length p2 + List.length (log st2) - List.length (log st2))%nat with (List.length (map snd p2)) by lia.
     rewrite !firstn_app, !Nat.sub_diag, !firstn_all. simpl. rewrite !app_nil_r. congruence.
   Qed.
+
+  (* liveness: after ANY history, once the clock has advanced by the response timeout for each request
+     still unfinished (the outstanding one and those queued behind it, which get their turn one at a
+     time, in arrival order), the gate is free, nobody waits, every request ever started has completed *)
+  Theorem C03_gate_released :
+    forall ops dt,
+      0 < dt -> timeout * Z.of_nat (unfinished (run_ops ops)) <= dt ->
+      let st' := step shipped actions_of errors results_of fresh timeout c (run_ops ops) (OTick dt) in
+      holder st' = None /\ waiters st' = [] /\
+      forall k cl, get_caller k (callers st') = Some cl -> exists o t, cl_phase cl = PDone o t.
+  Proof. exact (gate_released shipped actions_of errors results_of fresh timeout c timeout_pos). Qed.
+
+  (* ... and a subsequent request is written at once *)
+  Theorem C03_next_call_written :
+    forall ops dt k uid action snake (skip : bool) suppress w,
+      let st := step shipped actions_of errors results_of fresh timeout c (run_ops ops) (OTick dt) in
+      0 < dt -> timeout * Z.of_nat (unfinished (run_ops ops)) <= dt ->
+      get_caller k (callers st) = None ->
+      (if skip then VAccept (remove_nones (s2c_keys snake))
+       else validate shipped (ver c) MCall action (remove_nones (s2c_keys snake))) = VAccept w ->
+      exists pre, log (start_with shipped errors results_of timeout c st k uid action snake skip suppress true)
+                  = pre ++ (now st, CallWritten k (JArr [JNum (NInt 2); uid; JStr action; encode w])) :: log st.
+  Proof. exact (then_next_call_is_written shipped actions_of errors results_of fresh timeout c timeout_pos). Qed.
 End C03.
+Print Assumptions C03_gate_released.
+Print Assumptions C03_next_call_written.
 Print Assumptions C03_gate_protocol.
 Print Assumptions C03_mutex.
 Print Assumptions C03_free_when_idle.
